@@ -40,6 +40,10 @@ impl Scenario for CompatSc {
         p.set("payload_idx", ((index / 2) % GOLDEN_PAYLOADS.len() as u64) as i64);
         p.set("len", crate::sc_crypt::enc_len(&mut x, index / 6, tier == Tier::Thorough) as i64);
         p.set("key_class", x.below(6) as i64);
+        if class == "ref-interop" && index % 61 == 7 {
+            // rarely, a payload beyond one MiB (chunked key-stream generation has boundaries of its own)
+            p.set("len", *x.pick(&[1_048_573i64, 1_048_574, 1_100_000, 2_200_000]));
+        }
         p.steps.push(Step::new(class, &[index as i64]));
         p
     }
